@@ -281,5 +281,5 @@ def abs_tol(P, R):
                                            (n.text(), const, " (%s)" % "/".join(ys.macros) if ys.macros else ""), n.line))
                     break
     R.counts["kernel_data_comparisons"] = nex
-    if nex < 3:
-        raise AnalysisBroken("R34b ABS-TOL: only %d data comparisons found in the kernels (4 confirmed by hand)" % nex)
+    if nex < 2:
+        raise AnalysisBroken("R34b ABS-TOL: only %d data comparisons found in the kernels (3 today)" % nex)
